@@ -65,6 +65,13 @@ func (h *invocationResponseHandler) ServeHTTP(writer http.ResponseWriter, reques
 			}
 
 			_ = server.SendErrorResponse(chi.URLParam(request, "awsrequestid"), response)
+
+			// the invocation has got its answer (the error above): leave the "response being sent" state,
+			// in which every later call of the runtime, next included, is refused
+			if err := runtime.ResponseSent(); err != nil {
+				log.Panic(err)
+			}
+
 			rendering.RenderInvalidFunctionResponseMode(writer, request)
 			return
 		}
